@@ -146,6 +146,71 @@ theorem projectNameL_agrees (files : List (List (Option Str))) (env : Env) (lo :
         · cases hs; exact Or.inl rfl
         · cases hs; exact Or.inr rfl
 
+/-- the four sources of the property at the cli, with the interpolation switch: under `SkipInterpolation` the
+    `name:` of the files counts as written -/
+def sourcesOfX (w : World) (o : PO) (files : List (List (Option Str))) (skip : Bool) : Sources where
+  explicit := o.name
+  fromEnv := o.env.get cpn
+  fromFiles := match interpName o.env skip (selectedName files) with
+    | .ok s => .ok s
+    | .error _ => .error ()
+  dirBase := projDir w o
+
+theorem interpName_err (env : Env) (skip : Bool) (raw : Str) (e : Err) (h : interpName env skip raw = .error e) :
+    e = .interp ∨ e = .panic := by
+  unfold interpName at h
+  split at h
+  · cases h
+  · split at h
+    · cases h
+    · cases h; exact Or.inl rfl
+    · cases h; exact Or.inr rfl
+
+theorem nonimp_agrees (w : World) (o : PO) (files : List (List (Option Str))) (skip : Bool) :
+    Agrees
+      (match (match interpName o.env skip (selectedName files) with
+              | .ok s => (Except.ok s : Except Unit Str)
+              | .error _ => .error ()) with
+        | .error _ => Decision.failed
+        | .ok t =>
+          if normalize t ≠ [] then .name (normalize t)
+          else if normalize (projDir w o) ≠ [] then .name (normalize (projDir w o))
+          else .noName)
+      (match interpName o.env skip (selectedName files) with
+        | .error e => .error e
+        | .ok s => if normalize s ≠ [] then .ok (normalize s) else .ok (normalize (normalize (projDir w o)))) := by
+  cases hs : interpName o.env skip (selectedName files) with
+  | ok s =>
+    by_cases h1 : normalize s = []
+    · by_cases h2 : normalize (projDir w o) = []
+      · simp [Agrees, h1, h2, normalize_nil]
+      · simp [Agrees, h1, h2, norm_idem]
+    · simp [Agrees, h1]
+  | error e =>
+    simp only [Agrees]
+    rcases interpName_err _ _ _ e hs with h | h <;> simp [h]
+
+/-- the decision of the specification over the four sources, for either position of the interpolation switch -/
+theorem projectNameL_agrees_cli (w : World) (o : PO) (files : List (List (Option Str))) (skip : Bool) :
+    Agrees (Spec.decide (sourcesOfX w o files skip)) (projectNameL files o.env (loptsOf w o skip)) := by
+  unfold Spec.decide sourcesOfX projectNameL loptsOf cliName
+  by_cases hname : o.name = []
+  · simp only [hname, ne_eq, not_true_eq_false, if_false]
+    cases henv : o.env.get cpn with
+    | some n =>
+      by_cases hn : n = []
+      · subst hn
+        simp only [Option.filter, ne_eq, not_true_eq_false, decide_false, if_false, Bool.false_eq_true,
+          lastName_selected]
+        exact nonimp_agrees w o files skip
+      · simp only [Option.filter, ne_eq, hn, not_false_eq_true, decide_true, if_true]
+        exact imperative_agrees n hn
+    | none =>
+      simp only [Option.filter, Bool.false_eq_true, if_false, lastName_selected]
+      exact nonimp_agrees w o files skip
+  · simp only [hname, ne_eq, not_false_eq_true, if_true]
+    exact imperative_agrees o.name hname
+
 /-! helpers of the non-vacuity examples of `Props/C17Loader.lean` -/
 def exF : List (List (Option Str)) := [[some "one".toList], [none, some "$X".toList]]
 def okL (r : Except Err Str) : Option String := r.toOption.map String.ofList
